@@ -46,17 +46,27 @@ theorem chain_resp (exts : List Row) (s : Stanza) (hresp : isResp s.type = true)
     | true => simp [hs]
     | false => simp [hs, ih']
 
-theorem fallbackReply_ok (f : From) : okOne f [fallbackReply] = true := by
+theorem fallbackReply_ok (f : From) (e : Entry) : okOne f [fallbackReply e] = true := by
   simp [fallbackReply, okOne, ToC.okFor]
 
-/-- the lifting lemma: good rows ⇒ the whole pipeline answers right, for EVERY extension list -/
-theorem dispatch_good (exts : List Row) (s : Stanza) (h : ∀ r ∈ exts, r.good s = true) :
+/-- before the session is established nothing is ever sent: the stream is closed instead -/
+theorem dispatch_negotiating (exts : List Row) (s : Stanza) (hp : s.phase = .negotiating)
+    (he : s.entry ≠ .inject) : dispatch exts s = ⟨.negotiation, [], true⟩ := by
+  have h1 : (s.entry != .inject) = true := by simpa using he
+  simp [dispatch, hp, h1]
+
+/-- the lifting lemma: good rows ⇒ the whole pipeline answers right, for EVERY extension list
+(session established, or the direct injectIq entry, which does not look at the stream's state) -/
+theorem dispatch_good (exts : List Row) (s : Stanza) (h : ∀ r ∈ exts, r.good s = true)
+    (hs : s.phase = .session ∨ s.entry = .inject) :
     answeredRight s (dispatch exts s).sent = true := by
+  have hneg : (s.entry != .inject && decide (s.phase = .negotiating)) = false := by
+    rcases hs with h1 | h1 <;> simp [h1]
   by_cases hreq : isReq s.type = true
   · have hnresp := isReq_not_isResp hreq
     have hc := chain_req exts s hreq h
     have ht : tableConsumes s = false := by simp [tableConsumes, hnresp]
-    simp only [dispatch, ht, Bool.and_false, Bool.false_eq_true, if_false]
+    simp only [dispatch, hneg, ht, Bool.and_false, Bool.false_eq_true, if_false]
     cases hb : (chain exts s).handledBy with
     | some m => simp only; exact hc.1 (by simp [hb])
     | none =>
@@ -66,7 +76,7 @@ theorem dispatch_good (exts : List Row) (s : Stanza) (h : ∀ r ∈ exts, r.good
   · by_cases hresp : isResp s.type = true
     · have hc := chain_resp exts s hresp h
       have hreq' : isReq s.type = false := by simpa using hreq
-      simp only [dispatch]
+      simp only [dispatch, hneg, Bool.false_eq_true, if_false]
       split
       · simp [answeredRight, answeredTF, hreq', hresp]
       · cases hb : (chain exts s).handledBy with
@@ -76,7 +86,7 @@ theorem dispatch_good (exts : List Row) (s : Stanza) (h : ∀ r ∈ exts, r.good
       have hresp' : isResp s.type = false := by simpa using hresp
       simp [answeredRight, answeredTF, hreq', hresp']
 
-/-! ### Row by row: every bundled handler is good at every stanza -/
+/-! ### Row by row: every bundled handler, in every modelled state, is good at every stanza -/
 
 theorem run_pass (m : Mgr) (s : Stanza) (h : (rowOf m).beh = passBeh) : (rowOf m).good s = true := by
   simp only [Row.good, Row.run, h, passBeh]
@@ -88,95 +98,154 @@ Pattern: unfold the handler, abstract every look at the children (`headIs …`, 
 arbitrary Bool, abstract type / sender / id / entry, and decide the remaining finite case split.  Nothing
 about the list of children is assumed, so each case holds for stanzas with any number of children.
 -/
-local macro "finish_cases" : tactic => `(tactic| (
-  generalize Stanza.type _ = t
-  generalize Stanza.enc _ = e
-  generalize Stanza.frm _ = f
-  cases t <;> cases e <;> cases f <;> decide))
+theorem transfer_good (l : Lsn) (j : Job) (m : Mgr) (s : Stanza) :
+    Row.good ⟨m, false, transferBeh l j⟩ s = true := by
+  simp only [Row.good, Row.run, transferBeh, Beh.goodFor]
+  -- the reply kinds do not matter for goodness: abstract them
+  generalize ibbCloseKind j s = k1
+  generalize ibbDataKind j s = k2
+  generalize ibbOpenKind j s = k3
+  generalize siSetKind l s = k4
+  generalize headIs s .close .ibb = a
+  generalize headIs s .data .ibb = b
+  generalize headIs s .openT .ibb = c
+  generalize headIs s .query .bytestreams = d
+  generalize namedHasNs s .si .si = g
+  generalize s.type = t
+  generalize s.dec = e
+  generalize s.frm = f
+  cases a <;> cases b <;> cases c <;> cases d <;> cases g <;> cases e <;> cases t <;> cases f <;> rfl
 
 theorem row_good (m : Mgr) (s : Stanza) : (rowOf m).good s = true := by
   cases m
   case vcard =>
     simp only [rowOf, Row.good, Row.run, vcardBeh, Beh.goodFor]
     generalize headIs s .vCard .vcard = a
-    cases a <;> finish_cases
+    generalize s.type = t
+    generalize s.dec = e
+    generalize s.frm = f
+    cases a <;> cases t <;> cases e <;> cases f <;> decide
   case roster =>
     simp only [rowOf, Row.good, Row.run, rosterBeh, Beh.goodFor]
     generalize headIs s .query .roster = a
-    cases a <;> finish_cases
+    generalize s.type = t
+    generalize s.dec = e
+    generalize s.frm = f
+    cases a <;> cases t <;> cases e <;> cases f <;> decide
   case version =>
     simp only [rowOf, Row.good, Row.run, versionBeh, Beh.goodFor]
     generalize headIs s .query .version = a
-    cases a <;> finish_cases
+    generalize s.type = t
+    generalize s.dec = e
+    generalize s.frm = f
+    cases a <;> cases t <;> cases e <;> cases f <;> decide
   case entityTime =>
     simp only [rowOf, Row.good, Row.run, timeBeh, Beh.goodFor]
     generalize headIs s .time .time = a
-    cases a <;> finish_cases
+    generalize s.type = t
+    generalize s.dec = e
+    generalize s.frm = f
+    cases a <;> cases t <;> cases e <;> cases f <;> decide
   case discovery =>
     simp only [rowOf, Row.good, Row.run, discoBeh, Beh.goodFor]
     generalize headIs s .query .discoInfo = a
     generalize headIs s .query .discoItems = b
     generalize headFlag s = c
-    cases a <;> cases b <;> cases c <;> finish_cases
+    generalize s.type = t
+    generalize s.dec = e
+    generalize s.frm = f
+    cases a <;> cases b <;> cases c <;> cases t <;> cases e <;> cases f <;> decide
   case archive =>
     simp only [rowOf, Row.good, Row.run, archiveBeh, Beh.goodFor]
     generalize namedNsFlag s .chat .archive = a
     generalize headIs s .list .archive = b
     generalize headIs s .pref .archive = c
-    cases a <;> cases b <;> cases c <;> finish_cases
+    generalize s.type = t
+    generalize s.dec = e
+    generalize s.frm = f
+    cases a <;> cases b <;> cases c <;> cases t <;> cases e <;> cases f <;> decide
   case blocking =>
     simp only [rowOf, Row.good, Row.run, blockingBeh, Beh.goodFor]
     generalize headIs s .block .blocking = a
     generalize headIs s .unblock .blocking = b
-    cases a <;> cases b <;> finish_cases
+    generalize s.type = t
+    generalize s.dec = e
+    generalize s.frm = f
+    cases a <;> cases b <;> cases t <;> cases e <;> cases f <;> decide
   case blockingSub =>
     simp only [rowOf, Row.good, Row.run, blockingBeh, Beh.goodFor]
     generalize headIs s .block .blocking = a
     generalize headIs s .unblock .blocking = b
-    cases a <;> cases b <;> finish_cases
+    generalize s.type = t
+    generalize s.dec = e
+    generalize s.frm = f
+    cases a <;> cases b <;> cases t <;> cases e <;> cases f <;> decide
   case bookmark =>
     simp only [rowOf, Row.good, Row.run, bookmarkBeh, Beh.goodFor]
     generalize headIs s .query .priv = a
     generalize headFlag s = b
     generalize s.id = i
-    cases a <;> cases b <;> cases i <;> finish_cases
+    generalize s.type = t
+    generalize s.dec = e
+    generalize s.frm = f
+    cases a <;> cases b <;> cases i <;> cases t <;> cases e <;> cases f <;> decide
   case mam =>
     simp only [rowOf, Row.good, Row.run, mamBeh, Beh.goodFor]
     generalize namedHasNs s .fin .mam = a
-    cases a <;> finish_cases
+    generalize s.type = t
+    generalize s.dec = e
+    generalize s.frm = f
+    cases a <;> cases t <;> cases e <;> cases f <;> decide
   case muc =>
     simp only [rowOf, Row.good, Row.run, mucBeh, Beh.goodFor]
     generalize namedHasNs s .query .mucAdmin = a
     generalize namedHasNs s .query .mucOwner = b
-    cases a <;> cases b <;> finish_cases
+    generalize namedFlag s .query = c
+    generalize s.id = i
+    generalize s.type = t
+    generalize s.dec = e
+    generalize s.frm = f
+    cases a <;> cases b <;> cases c <;> cases i <;> cases t <;> cases e <;> cases f <;> decide
   case mucRoom =>
     simp only [rowOf, Row.good, Row.run, mucBeh, Beh.goodFor]
     generalize namedHasNs s .query .mucAdmin = a
     generalize namedHasNs s .query .mucOwner = b
-    cases a <;> cases b <;> finish_cases
+    generalize namedFlag s .query = c
+    generalize s.id = i
+    generalize s.type = t
+    generalize s.dec = e
+    generalize s.frm = f
+    cases a <;> cases b <;> cases c <;> cases i <;> cases t <;> cases e <;> cases f <;> decide
   case registration =>
     simp only [rowOf, Row.good, Row.run, registrationBeh, Beh.goodFor]
     generalize headIs s .query .register = a
     generalize s.id = i
-    cases a <;> cases i <;> finish_cases
+    generalize s.type = t
+    generalize s.dec = e
+    generalize s.frm = f
+    cases a <;> cases i <;> cases t <;> cases e <;> cases f <;> decide
   case rpc =>
     simp only [rowOf, Row.good, Row.run, rpcBeh, Beh.goodFor]
     generalize namedHasNs s .query .rpc = a
     generalize (named s .error).isSome = b
-    cases a <;> cases b <;> finish_cases
-  case transfer =>
-    simp only [rowOf, Row.good, Row.run, transferBeh, Beh.goodFor]
-    generalize headIs s .close .ibb = a
-    generalize headIs s .data .ibb = b
-    generalize headIs s .openT .ibb = c
-    generalize headIs s .query .bytestreams = d
-    generalize namedHasNs s .si .si = g
-    cases a <;> cases b <;> cases c <;> cases d <;> cases g <;> finish_cases
+    generalize namedFlag s .query = c
+    generalize s.type = t
+    generalize s.dec = e
+    generalize s.frm = f
+    cases a <;> cases b <;> cases c <;> cases t <;> cases e <;> cases f <;> decide
+  case transfer => exact transfer_good _ _ _ s
+  case transferAccept => exact transfer_good _ _ _ s
+  case transferDecline => exact transfer_good _ _ _ s
+  case transferJob => exact transfer_good _ _ _ s
+  case transferJobOpen => exact transfer_good _ _ _ s
   case uploadRequest =>
     simp only [rowOf, Row.good, Row.run, uploadRequestBeh, Beh.goodFor]
     generalize headIs s .slot .upload = a
     generalize headIs s .request .upload = b
-    cases a <;> cases b <;> finish_cases
+    generalize s.type = t
+    generalize s.dec = e
+    generalize s.frm = f
+    cases a <;> cases b <;> cases t <;> cases e <;> cases f <;> decide
   all_goals exact run_pass _ s rfl
 
 end Qx.C08
